@@ -9,11 +9,32 @@ import sys
 import traceback
 
 
-def _optimized_pass(ctx, pid):
-    """Environment deviation 'assertions stripped': the whole quick exploration once more in a child interpreter started
-    with PYTHONOPTIMIZE=1 (inherited by pool workers and by first-use child interpreters), against the same oracle.
-    The library has >100 assert statements; a property that only holds while they execute does not hold for a user
-    running python -O.  Violations of the child are merged under their own keys (so known findings still match)."""
+ENV_PASSES = (
+    # name, extra interpreter args, extra environment, label used in messages
+    ("python-O-pass", ["-O"], {"PYTHONOPTIMIZE": "1"}, "python -O"),
+    ("ambient-decimal-pass", [], {"VERIF_AMBIENT_DECIMAL": "1"}, "ambient decimal context prec=6 ROUND_UP"),
+)
+
+
+def _apply_ambient():
+    """Ambient process state selected by the environment (set by the environment passes below): the application's
+    own decimal context.  Set on the main thread's context (inherited by forked pool workers) and on DefaultContext
+    (the template for threads started later)."""
+    if os.environ.get("VERIF_AMBIENT_DECIMAL") == "1":
+        import decimal
+        for c in (decimal.getcontext(), decimal.DefaultContext):
+            c.prec = 6
+            c.rounding = decimal.ROUND_UP
+
+
+def _environment_pass(ctx, pid, name, pyargs, extra_env, label):
+    """Environment deviations, one at a time: the whole quick exploration once more in a child interpreter that differs
+    from the default in ONE ambient answer, against the same oracle.
+    'python -O': assertions stripped (PYTHONOPTIMIZE=1 is inherited by pool workers and first-use child interpreters);
+    the library has >100 assert statements, and a property that only holds while they execute does not hold for a user
+    running python -O.  'ambient decimal context': the application has lowered decimal precision and changed the
+    rounding mode; the library's arithmetic is integer arithmetic and must not notice.
+    Violations of the child are merged under their own keys (so known findings still match)."""
     import glob
     import shutil
     import subprocess
@@ -22,12 +43,12 @@ def _optimized_pass(ctx, pid):
     out = tempfile.mkdtemp(prefix="vf-pyopt-")
     acc = Acc()
     try:
-        env = dict(os.environ, PYTHONOPTIMIZE="1", VERIF_OUT=out, VERIF_TIER="quick")
-        r = subprocess.run([sys.executable, "-O", "-m", "vf.cli", pid, "--tier", "quick"], env=env,
+        env = dict(os.environ, VERIF_OUT=out, VERIF_TIER="quick", VERIF_ENV_PASSES="0", **extra_env)
+        r = subprocess.run([sys.executable] + pyargs + ["-m", "vf.cli", pid, "--tier", "quick"], env=env,
                            capture_output=True, text=True)
         if r.returncode not in (0, 1):
             print(r.stdout[-2000:], r.stderr[-4000:], file=sys.stderr)
-            raise RuntimeError("python -O pass of %s ended with exit %d" % (pid, r.returncode))
+            raise RuntimeError("%s pass of %s ended with exit %d" % (label, pid, r.returncode))
         try:
             with open(os.path.join(out, "evidence", "%s.json" % pid)) as f:
                 ev = json.load(f)
@@ -36,7 +57,7 @@ def _optimized_pass(ctx, pid):
                       evaluations=int(cov.get("evaluations", 0) or cov.get("traces_validated_against_impl", 0)),
                       nontrivial=int(cov.get("distinct_nontrivial", 0)))
             for c in cov.get("caps_hit", []) or []:
-                acc.cap("python -O pass: %s" % c)
+                acc.cap("%s pass: %s" % (label, c))
         except (OSError, ValueError):
             pass
         for p in sorted(glob.glob(os.path.join(out, "replays", "%s-*.json" % pid))):
@@ -46,17 +67,18 @@ def _optimized_pass(ctx, pid):
             tp = os.path.join(out, "replays", "test_%s" % os.path.basename(p).replace("-", "_").replace(".json", ".py"))
             if os.path.exists(tp):
                 with open(tp) as f:
-                    py = "# NOTE: seen with assertions stripped - run with PYTHONOPTIMIZE=1\n" + f.read()
-            acc.violation(rec.get("key", os.path.basename(p)), "[python -O] %s" % rec.get("what", ""),
-                          {"interpreter": "PYTHONOPTIMIZE=1", "case": rec.get("case")}, py)
+                    py = "# NOTE: seen only under: %s (environment %r)\n" % (label, extra_env) + f.read()
+            acc.violation(rec.get("key", os.path.basename(p)), "[%s] %s" % (label, rec.get("what", "")),
+                          {"environment": extra_env, "case": rec.get("case")}, py)
         for line in r.stdout.splitlines():
             if line.startswith("KNOWN-FINDING"):
-                acc.outcome("python -O: known finding reported")
-        acc.outcome("python -O pass exit %d" % r.returncode)
-        acc.note("command", "PYTHONOPTIMIZE=1 python -O -m vf.cli %s --tier quick" % pid)
+                acc.outcome("%s: known finding reported" % label)
+        acc.outcome("%s pass exit %d" % (label, r.returncode))
+        acc.note("command", "%s python %s -m vf.cli %s --tier quick" % (
+            " ".join("%s=%s" % kv for kv in extra_env.items()), " ".join(pyargs), pid))
     finally:
         shutil.rmtree(out, ignore_errors=True)
-    ctx.merge_part("python-O-pass", acc)
+    ctx.merge_part(name, acc)
 
 
 def main(argv=None):
@@ -73,6 +95,7 @@ def main(argv=None):
         print("pyoda_time from", os.path.dirname(pyoda_time.__file__), "calendars", len(list(CalendarSystem.ids)),
               "zones", len(list(DateTimeZoneProviders.tzdb.ids)))
         return 0
+    _apply_ambient()
     try:
         seed = int(os.environ.get("VERIF_SEED", "0") or 0)
     except ValueError:
@@ -112,9 +135,10 @@ def main(argv=None):
             traceback.print_exc()
             print("HARNESS-FAULT: %s" % e, file=sys.stderr)
             return 2
-    if (a.tier == "thorough" or os.environ.get("VERIF_PYOPT_PASS") == "1") and not sys.flags.optimize \
-            and os.environ.get("VERIF_PYOPT_PASS") != "0" and not a.only:
-        _optimized_pass(ctx, pid)
+    want = os.environ.get("VERIF_ENV_PASSES")      # "1": also in the quick tier; "0": never (set for the children)
+    if (a.tier == "thorough" or want == "1") and want != "0" and not a.only:
+        for name, pyargs, extra_env, label in ENV_PASSES:
+            _environment_pass(ctx, pid, name, pyargs, extra_env, label)
     rc = ctx.finish()
     print("%s tier=%s seed=%d states=%d transitions=%d executions=%d nontrivial=%d outcomes=%d violations=%d wall=%.1fs%s" % (
         pid, a.tier, seed, ctx.states, ctx.transitions, ctx.evaluations, ctx.nontrivial, len(ctx.outcomes),
